@@ -334,3 +334,7 @@ pub broadcast axiom fn axiom_utf8_len(s: Seq<char>)
     ensures #[trigger] utf8_bytes(s).len() <= 4 * s.len(), utf8_bytes(s).len() >= s.len();
 pub assume_specification [std::string::String::as_bytes] (s: &String) -> (r: &[u8])
     ensures r@ == utf8_bytes(s@);
+pub assume_specification<T: core::cmp::Ord> [core::cmp::min] (a: T, b: T) -> (r: T)
+    ensures r == a || r == b;
+pub assume_specification<T: core::cmp::Ord> [core::cmp::max] (a: T, b: T) -> (r: T)
+    ensures r == a || r == b;
